@@ -7,6 +7,7 @@ import (
 	"net"
 	"net/http"
 	"net/http/httputil"
+	"strings"
 	"time"
 
 	"go.uber.org/zap"
@@ -92,7 +93,7 @@ func (p *HTTPProxy) ServeHTTPWithUpstream(
 	endpointID string,
 	upstream upstream.Upstream,
 ) {
-	if p.timeout != 0 && r.Header.Get("upgrade") != "websocket" {
+	if p.timeout != 0 && !strings.EqualFold(r.Header.Get("upgrade"), "websocket") {
 		ctx, cancel := context.WithTimeout(r.Context(), p.timeout)
 		defer cancel()
 
